@@ -117,7 +117,7 @@ func init() {
 				for _, n := range names {
 					f := sp.Members[n].(*ssa.Function)
 					key := "bij/" + t.pkg + "." + n
-					ap := applyOption(c, f)
+					ap := applyOption(c, f, t.typ)
 					if ap.why != "" {
 						s.Bad(key, c.P.Pos(f.Pos()), "cannot tell what applying the option does: "+ap.why)
 						continue
@@ -695,32 +695,31 @@ func init() {
 				}
 				got := map[string]bool{}
 				var pos token.Pos
-				for _, b := range f.Blocks {
-					for _, ins := range b.Instrs {
-						call, ok := ins.(*ssa.Call)
-						if !ok {
-							continue
-						}
-						name := ""
-						if cl := call.Common().StaticCallee(); cl != nil {
-							name = cl.Name()
-						} else if call.Common().IsInvoke() {
-							name = call.Common().Method.Name()
-						}
-						if name != t.callee {
-							continue
-						}
-						pos = call.Pos()
-						args := call.Common().Args
-						last := args[len(args)-1]
-						if ld, ok := last.(*ssa.UnOp); ok {
-							if g, ok := ld.X.(*ssa.Global); ok {
-								got[g.Name()] = true
-								continue
-							}
-						}
-						got["?"+last.String()] = true
+				// the encoder calls of the function, looking through unexported helpers of the same type
+				rt := t.recv
+				for _, x := range expandCalls(c, f, func(g *ssa.Function) bool {
+					return c.P.InModule(g) && namedOf(recvType(g)) == rt && g.Object() != nil && !g.Object().Exported() && g.Name() != t.callee
+				}, 2) {
+					call := x.Call
+					name := ""
+					if cl := call.Common().StaticCallee(); cl != nil {
+						name = cl.Name()
+					} else if call.Common().IsInvoke() {
+						name = call.Common().Method.Name()
 					}
+					if name != t.callee {
+						continue
+					}
+					pos = call.Pos()
+					args := call.Common().Args
+					last := x.Root(args[len(args)-1])
+					if ld, ok := last.(*ssa.UnOp); ok {
+						if g, ok := ld.X.(*ssa.Global); ok {
+							got[g.Name()] = true
+							continue
+						}
+					}
+					got["?"+last.String()] = true
 				}
 				s.Check(len(got) == 1 && got[t.set], key, c.P.Pos(pos), "encodes with "+t.set, fmt.Sprintf("encodes with %v, want %s", keysOf(got), t.set), t.props...)
 			}
@@ -862,23 +861,54 @@ func init() {
 				case "skipWindowsDriveLetterNormalization":
 					s.Check(hasFact(st.f, b, callFact("isWindowsDriveLetter", true)), key, pos, "read only after isWindowsDriveLetter(buffer) answered true", "read without the drive-letter test")
 				case "collapseConsecutiveSlashes":
-					// the arm that differs from the default (overwrite the last segment) needs: option on and last segment empty
+					// the arm that differs from the default (overwrite a segment instead of adding one) needs: option on and
+					// last segment empty. Overwriting sites: element stores into the path's segment slice, directly or through
+					// a method of the path type that performs one.
+					isPathSlice := func(v ssa.Value) bool {
+						ld, ok := v.(*ssa.UnOp)
+						if !ok || ld.Op != token.MUL {
+							return false
+						}
+						fa, ok := ld.X.(*ssa.FieldAddr)
+						if !ok || namedOf(fa.X.Type()) != "path" {
+							return false
+						}
+						_, isSlice := ld.Type().Underlying().(*types.Slice)
+						return isSlice
+					}
+					elementStore := func(g *ssa.Function) bool {
+						for _, gb := range g.Blocks {
+							for _, ins := range gb.Instrs {
+								if st, ok := ins.(*ssa.Store); ok {
+									if ia, ok := st.Addr.(*ssa.IndexAddr); ok && isPathSlice(ia.X) {
+										return true
+									}
+								}
+							}
+						}
+						return false
+					}
 					okAll := true
 					found := 0
 					for _, bb := range st.f.Blocks {
 						for _, ins := range bb.Instrs {
-							store, isS := ins.(*ssa.Store)
-							if !isS {
+							site := false
+							switch x := ins.(type) {
+							case *ssa.Store:
+								if ia, isI := x.Addr.(*ssa.IndexAddr); isI && isPathSlice(ia.X) {
+									site = true
+								}
+							case *ssa.Call:
+								if cl := x.Common().StaticCallee(); cl != nil && namedOf(recvType(cl)) == "path" && len(cl.Blocks) > 0 && elementStore(cl) {
+									// only overwriting helpers that are not the trailing-space stripper of opaque paths
+									if cl.Signature.Params().Len() > 0 {
+										site = true
+									}
+								}
+							}
+							if !site {
 								continue
 							}
-							ia, isI := store.Addr.(*ssa.IndexAddr)
-							if !isI {
-								continue
-							}
-							if _, isP := loadOfField(ia.X, "path:p"); !isP {
-								continue
-							}
-							// only stores in the state machine (BasicParser)
 							found++
 							optOn := hasFact(st.f, bb, func(fa condFact) bool { return optLoad(fa.Cond) == "collapseConsecutiveSlashes" && fa.Val })
 							lastEmpty := hasFact(st.f, bb, func(fa condFact) bool {
@@ -887,9 +917,17 @@ func init() {
 									return false
 								}
 								rel, _ := relOf(bo.Op, fa.Val)
-								k, isK := constInt(bo.Y)
-								_, isLen := lenArg(bo.X)
-								return isLen && isK && k == 0 && (rel == token.LEQ || rel == token.EQL)
+								if k, isK := constInt(bo.Y); isK && k == 0 {
+									if _, isLen := lenArg(bo.X); isLen && (rel == token.LEQ || rel == token.EQL) {
+										return true
+									}
+								}
+								for _, pr := range [][2]ssa.Value{{bo.X, bo.Y}, {bo.Y, bo.X}} {
+									if k, isK := constString(pr[1]); isK && k == "" && rel == token.EQL && isStringy(pr[0].Type()) {
+										return true
+									}
+								}
+								return false
 							})
 							if !optOn || !lastEmpty {
 								okAll = false
